@@ -408,6 +408,18 @@ struct InputIt *env_op_inc__pII (struct InputIt *it)
   return it;
 }
 
+/* std::advance / std::next on a single-pass iterator: n increments, each needing the position to have been read */
+void env_advance__pII_l (struct InputIt *it, long n)
+{
+  __CPROVER_assert (n >= 0, "[C15] input iterator moved backwards");
+  if (n == 0) return;
+  __CPROVER_assert (it->cur == S_CUR, "[C15] increment of a copy of an input iterator that was already advanced");
+  __CPROVER_assert (SAMEOBJ (S_CUR, S_END) && OFF (S_CUR) + ((unsigned long) n << ESZ_LOG2) <= OFF (S_END), "[C15] input iterator advanced at or beyond last");
+  __CPROVER_assert (S_DEREF_DONE && n == 1, "[C15] a position of a single-pass range is skipped without being read");
+  if (ITER_MAY_THROW && nondet_bool ()) { THROW (EXC_ITERATOR); return; }
+  S_CUR = S_CUR + n; it->cur = S_CUR; S_DEREF_DONE = 0;
+}
+
 _Bool env_op_eq__pcFI_pcFI (const struct FwdIt *a, const struct FwdIt *b)
 {
   if (ITER_MAY_THROW && nondet_bool ()) { THROW (EXC_ITERATOR); return nondet_bool (); }
